@@ -1067,7 +1067,11 @@ fn step(pre: &State, op: &Op) -> StepResult {
             let mut m = predoc.clone();
             m.objects.remove(id);
             expect_pages = page_tree(&m).0;
-            if pre.obs.tree_nodes.contains(id) { count_obl = "count-leaves-after-delete-object-of-page-tree-node"; }
+            if pre.obs.tree_nodes.contains(id) {
+                count_obl = "count-leaves-after-delete-object-of-page-tree-node";
+                // the ancestors' Count has to change with the leaves that go: the count-leaves observer judges its value
+                drop_count = true;
+            }
         }
         Op::RemoveAnnot(id) => {
             annot = Some(*id);
